@@ -55,7 +55,7 @@ func (e *Engine) lemmaValue(kind, name string, st *State, bound map[string]*Term
 }
 
 // verifyLemma: base and step obligations of an inductive lemma (or a direct proof when no induction variable)
-func (e *Engine) verifyLemma(name string, c *Contract) *FuncReport {
+func (e *Engine) verifyLemma(name string, c *Contract) (rep *FuncReport) {
 	fi := &FuncInfo{Key: "lemma." + name, Contract: c}
 	e.fi = fi
 	e.frames = []frame{{pkg: nil, fi: nil, what: "lemma"}}
@@ -70,7 +70,7 @@ func (e *Engine) verifyLemma(name string, c *Contract) *FuncReport {
 	e.callArgs = map[string][][]Value{}
 	e.dynType = map[string]types.Type{}
 	e.nfresh = 0
-	rep := &FuncReport{Key: fi.Key, Tags: c.tags()}
+	rep = &FuncReport{Key: fi.Key, Tags: c.tags()}
 	e.curTags = rep.Tags
 	defer func() {
 		if r := recover(); r != nil {
@@ -89,10 +89,7 @@ func (e *Engine) verifyLemma(name string, c *Contract) *FuncReport {
 		names[p.name] = e.lemmaValue(p.kind, p.name, st, nil)
 	}
 	env := &SpecEnv{e: e, st: st, names: names, noScope: true}
-	ind := ""
-	for _, cl := range c.byKind("induction", "") {
-		ind = cl.Names[0]
-	}
+	ind, indFrom := inductionOf(c)
 	var reqs, enss []*Term
 	for _, cl := range c.byKind("requires", "") {
 		reqs = append(reqs, term(e.evalSpec(cl.Expr, env)))
@@ -106,7 +103,7 @@ func (e *Engine) verifyLemma(name string, c *Contract) *FuncReport {
 	e.obls = append(e.obls, &Obligation{Name: fi.Key + "/cover/requires", Func: fi.Key, Tags: rep.Tags, Hyps: append([]*Term(nil), st.pc...), Goal: tFalse, Kind: "cover", Where: c.Where})
 	// lemmas may use other (separately proved) lemmas
 	for _, cl := range c.byKind("use", "") {
-		e.useLemma(cl.Expr, env, st, cl.Where)
+		e.useLemma(cl.Expr, env, st, cl.Where, hasTag(cl.Tags, "cond"))
 	}
 	if ind == "" {
 		for j, g := range enss {
@@ -114,9 +111,19 @@ func (e *Engine) verifyLemma(name string, c *Contract) *FuncReport {
 		}
 	} else {
 		iv := term(names[ind])
-		// induction hypothesis: the lemma at ind-1 (requires ==> ensures), for ind > lower bound found in requires
+		// induction hypothesis: the lemma at ind-1 (requires ==> ensures), available only above the declared
+		// lower bound ("induction v from L", default 0): at and below the bound the goal is proved outright, so the
+		// descent is well founded
+		lb := mkInt(0)
+		if indFrom != "" {
+			fx, err := parseSpec(indFrom)
+			if err != nil {
+				unsup("lemma %s: induction bound: %v", fi.Key, err)
+			}
+			lb = term(e.evalSpec(fx, env))
+		}
 		m := map[string]*Term{iv.Name: mkArith("-", iv, mkInt(1))}
-		ih := mkImplies(subst(mkAnd(reqs...), m), subst(mkAnd(enss...), m))
+		ih := mkImplies(mkCmp(">", iv, lb), mkImplies(subst(mkAnd(reqs...), m), subst(mkAnd(enss...), m)))
 		st.assume(ih)
 		for j, g := range enss {
 			e.assert(st, g, fmt.Sprintf("induction#%d", j), c.Where, nil)
@@ -129,7 +136,33 @@ func (e *Engine) verifyLemma(name string, c *Contract) *FuncReport {
 
 // useLemma: assume an instance family of a proved lemma. args bind all parameters except the induction variable
 // (which is universally quantified); requires not mentioning the induction variable become obligations here.
-func (e *Engine) useLemma(x *SExpr, env *SpecEnv, st *State, where string) {
+// cond: all requires become hypotheses of the assumed instance (nothing is asserted at the use site)
+func (e *Engine) useLemma(x *SExpr, env *SpecEnv, st *State, where string, cond bool) {
+	// use forall j :: lemma(f(j), ...): the instance family indexed by j
+	var outer []*Term
+	if x.Kind == "forall" {
+		n := *env
+		n.bound = map[string]*Term{}
+		for k, v := range env.bound {
+			n.bound[k] = v
+		}
+		for _, v := range x.Vars {
+			e.nfresh++
+			srt := SInt
+			if i := strings.Index(v, ":"); i >= 0 {
+				if v[i+1:] == "real" {
+					srt = SReal
+				}
+				v = v[:i]
+			}
+			bv := mkVar(fmt.Sprintf("%s$%d", v, e.nfresh), srt)
+			n.bound[v] = bv
+			outer = append(outer, bv)
+		}
+		env = &n
+		x = x.Args[0]
+		cond = true // nothing about an arbitrary index can be asserted here: requires become hypotheses
+	}
 	if x.Kind != "call" || x.Args[0].Kind != "ident" {
 		unsup("use: expected lemma application, got %s", x)
 	}
@@ -139,15 +172,12 @@ func (e *Engine) useLemma(x *SExpr, env *SpecEnv, st *State, where string) {
 		unsup("use: unknown lemma %s", name)
 	}
 	ps := lemmaParams(c)
-	ind := ""
-	for _, cl := range c.byKind("induction", "") {
-		ind = cl.Names[0]
-	}
+	ind, _ := inductionOf(c)
 	args := x.Args[1:]
 	names := map[string]Value{}
 	ai := 0
 	var bv *Term
-	var bvs []*Term
+	bvs := append([]*Term(nil), outer...)
 	for _, p := range ps {
 		if p.name == ind && len(args) == len(ps)-1 {
 			e.nfresh++
@@ -196,7 +226,7 @@ func (e *Engine) useLemma(x *SExpr, env *SpecEnv, st *State, where string) {
 	}
 	for _, cl := range c.byKind("requires", "") {
 		for _, t := range flattenAnd(term(e.evalSpec(cl.Expr, lenv))) {
-			if mentions(t) {
+			if cond || mentions(t) {
 				dep = append(dep, t)
 			} else {
 				indep = append(indep, t)
@@ -216,4 +246,16 @@ func (e *Engine) useLemma(x *SExpr, env *SpecEnv, st *State, where string) {
 	} else {
 		st.assume(body)
 	}
+}
+
+// inductionOf: "induction v" or "induction v from L"
+func inductionOf(c *Contract) (string, string) {
+	for _, cl := range c.byKind("induction", "") {
+		f := strings.SplitN(cl.Text, " from ", 2)
+		if len(f) == 2 {
+			return strings.TrimSpace(f[0]), strings.TrimSpace(f[1])
+		}
+		return strings.TrimSpace(cl.Text), ""
+	}
+	return "", ""
 }
